@@ -62,8 +62,12 @@ def run(E: Engine, rep: Report, tier: str) -> dict:
     tnd = E.method(SS, "to_nested_dict")
     St = S(E, tnd)
     # ---------------------------------------------------------------- SIB
-    accs = [(l, _split_acc(l)) for l in St.logged("aug") if l.fn == tnd.short and l.op == "Add"]
+    accs = [(l, _split_acc(l)) for l in St.logged("aug", "store") if l.fn == tnd.short and (l.op == "Add" or l.kind == "store") and l.value is not None]
     accs = [(l, p) for l, p in accs if p is not None]
+    # several channels can address one basis / one atom: their samples add up (an assignment keeps the last channel only)
+    for l, p in accs:
+        if l.kind == "store":
+            rep.violation("SIB", f"to_nested_dict|{p[1]}|accumulated-not-assigned", f"`{sh(l.target, 80)} = ...` assigns the {p[1]} samples of a channel instead of adding them (`+=`): with two channels on the same basis (or atom) only the last one declared survives", E.where(tnd, l.node))
     groups: dict = {}
     for l, p in accs:
         groups.setdefault((p[0], l.cond, l.loops), []).append((l, p))
@@ -212,4 +216,23 @@ def run(E: Engine, rep: Report, tier: str) -> dict:
                     guarded = all(any(l.truth is not None and l.atom is None and l.positive and l.text == path for l in c) for c in dnf)
                     rep.check(guarded, "CONTRA", f"{f.short}|{norm(n)}", "constant index under a non-empty guard", f"`{norm(n)}` is indexed with a constant although the same function treats `{path}` as possibly empty (`{maybe_empty[path]}`): a channel without such entries raises IndexError here", E.where(f, n))
     rep.floor("CONTRA", 2)
+    # ------------------------------------------------------------ INPLACE
+    # rendering is read-only: `x = <object>.<field>; x -= y` (or |=, +=, &=) on a set/list/dict edits the object the
+    # field belongs to -- here the slots of the samples, whose target sets are shared with the schedule
+    n_aug = 0
+    for f in [g for g in P.all_functions() if g.module.name in ("pulser.sampler.samples", "pulser.sampler.sampler") and g.kind != "overload"]:
+        fl_ = E.flow(f)
+        defs = fl_.ctx.local_defs()
+        for n in own_nodes(f):
+            if not (isinstance(n, ast.AugAssign) and isinstance(n.target, ast.Name)):
+                continue
+            tt = E.R.type_of(n.target, fl_.ctx)
+            if not any(a[0] in ("list", "set", "dict") for a in tt):
+                continue
+            n_aug += 1
+            aliases = [v for kind, v in defs.get(n.target.id, []) if kind == "assign" and isinstance(v, (ast.Attribute, ast.Subscript))]
+            is_param = fl_.ctx.is_param(n.target.id)
+            rep.check(not aliases and not is_param, "INPLACE", f"{f.short}|{n.target.id}|{type(n.op).__name__}", "the augmented container was built in this function",
+                      f"`{norm(n)}` in {f.short}: `{n.target.id}` is bound to `{norm(aliases[0]) if aliases else 'a parameter'}` -- an in-place operator on a set/list/dict edits that object itself (the slot's target set is shared with the sequence's schedule), so rendering the samples changes what later renderings and the sequence see", E.where(f, n))
+    rep.note("inplace_augmented_containers", n_aug) if hasattr(rep, "note") else None
     return {"groups": len(glist), "constant_indexings_of_maybe_empty": n_idx}
